@@ -10,6 +10,12 @@ INT16 = 32767
 ACCEPTED_ERRORS = ("ValueError", "OverflowError", "error", "AssertionError")  # struct.error -> "error"
 
 
+def unit_tol(cfg):
+    """'a few font units' of outline quantisation: 2 units, or the cubic-to-quadratic conversion
+    error ufo2ft allows (0.001 em) plus rounding when that is more (upem 16384: ~20 units)"""
+    return max(2.0, 1.25 * cfg.upem / 1000.0)
+
+
 def user_affine(cfg):
     return tuple(cfg.transform)
 
@@ -110,7 +116,7 @@ def colr_checks(prop, glyphs, cfg, font, G=24):
             continue
         name = names[0]
         adv = font["hmtx"][name][0]
-        delta = 2.0 * scales.get(name, 1.0) + tol
+        delta = unit_tol(cfg) * scales.get(name, 1.0) + tol
         stats = compare_glyph(g, cfg, adv, lambda p: pic.at(name, p), delta, G=G)
         for k in tot:
             tot[k] += stats[k]
